@@ -7,14 +7,63 @@ import (
 
 	"k8s.io/apimachinery/pkg/util/sets"
 
+	"github.com/AliyunContainerService/terway/pkg/eni"
 	"github.com/AliyunContainerService/terway/pkg/k8s"
+	"github.com/AliyunContainerService/terway/pkg/storage"
+	"github.com/AliyunContainerService/terway/rpc"
 	"github.com/AliyunContainerService/terway/types"
 	"github.com/AliyunContainerService/terway/types/daemon"
 )
 
-// VerifIpamCleanRuntimeNode runs the real cleanRuntimeNode step of the daemon's garbage collector (CRD IPAM,
-// multi-IP mode) over a caller-supplied k8s facade. localUIDs are the pod UIDs that still have a record in the
-// daemon's resource database. Exists only in the /verif build overlay (C03 harness); no product logic.
+// VerifIpamService wraps the real node daemon RPC service (networkService) in CRD IPAM / multi-IP mode for the
+// C02/C03/C08 harness (package node of the cluster IPAM controller): the harness plays kubelet and calls the real
+// CNI ADD / DEL handlers (AllocIP / ReleaseIP), which resolve the pod through k8s.Kubernetes, consult the stored
+// sandbox record and only then talk to the CRD backend. Exists only in the /verif build overlay; no product logic.
+type VerifIpamService struct{ n *networkService }
+
+func VerifIpamNewService(k k8s.Kubernetes, mgr *eni.Manager, v4, v6 bool) *VerifIpamService {
+	return &VerifIpamService{n: &networkService{
+		daemonMode: daemon.ModeENIMultiIP,
+		k8s:        k,
+		resourceDB: storage.NewMemoryStorage(),
+		eniMgr:     mgr,
+		enableIPv4: v4,
+		enableIPv6: v6,
+		ipamType:   types.IPAMTypeCRD,
+	}}
+}
+
+func (s *VerifIpamService) AllocIP(ctx context.Context, r *rpc.AllocIPRequest) (*rpc.AllocIPReply, error) {
+	return s.n.AllocIP(ctx, r)
+}
+
+func (s *VerifIpamService) ReleaseIP(ctx context.Context, r *rpc.ReleaseIPRequest) (*rpc.ReleaseIPReply, error) {
+	return s.n.ReleaseIP(ctx, r)
+}
+
+// Seed stores a sandbox record as a previous run of the daemon left it (take-over scenarios). Input construction.
+func (s *VerifIpamService) Seed(pod *daemon.PodInfo, containerID string, items []daemon.ResourceItem) error {
+	ns := "/proc/0/ns/net"
+	return s.n.resourceDB.Put(pod.Namespace+"/"+pod.Name, daemon.PodResources{PodInfo: pod, Resources: items, NetNs: &ns, ContainerID: &containerID})
+}
+
+// CleanRuntimeNode runs the real cleanRuntimeNode step of the daemon's garbage collector with the pod UIDs of the
+// records currently stored, collected the way gcPods collects them before it calls that step.
+func (s *VerifIpamService) CleanRuntimeNode(ctx context.Context) error {
+	objList, err := s.n.resourceDB.List()
+	if err != nil {
+		return err
+	}
+	uids := sets.New[string]()
+	for _, podRes := range getPodResources(objList) {
+		if podRes.PodInfo != nil && podRes.PodInfo.PodUID != "" {
+			uids.Insert(podRes.PodInfo.PodUID)
+		}
+	}
+	return s.n.cleanRuntimeNode(ctx, uids)
+}
+
+// VerifIpamCleanRuntimeNode: as above over a caller-supplied k8s facade and UID set (kept for callers without a service).
 func VerifIpamCleanRuntimeNode(ctx context.Context, k k8s.Kubernetes, localUIDs sets.Set[string]) error {
 	n := &networkService{k8s: k, ipamType: types.IPAMTypeCRD, daemonMode: daemon.ModeENIMultiIP}
 	return n.cleanRuntimeNode(ctx, localUIDs)
